@@ -46,6 +46,10 @@ impl<'a> Resources<'a> {
 	pub fn fsck(&self) -> Result<()> {
 		self.root()?.fsck()
 	}
+	// The number of directories a well formed tree can possibly have
+	fn fsck_budget(&self) -> usize {
+		self.section.len() / mem::size_of::<IMAGE_RESOURCE_DIRECTORY>()
+	}
 
 	#[inline]
 	fn slice<T: Pod>(&self, offset: u32) -> Result<&'a T> {
@@ -168,7 +172,15 @@ impl<'a> Directory<'a> {
 	///
 	/// Simply walks the filesystem checking all references are valid.
 	pub fn fsck(&self) -> Result<()> {
-		self.entries().try_for_each(|e| e.fsck())
+		self.fsck_(0, &mut self.resources.fsck_budget())
+	}
+	fn fsck_(&self, depth: u32, budget: &mut usize) -> Result<()> {
+		// A directory which is nested too deep or visited more often than there is room for directories is shared or contains itself
+		if depth >= FSCK_MAX_DEPTH || *budget == 0 {
+			return Err(Error::Insanity);
+		}
+		*budget -= 1;
+		self.entries().try_for_each(|e| e.fsck_(depth, budget))
 	}
 }
 #[rustfmt::skip]
@@ -382,9 +394,12 @@ impl<'a> DirectoryEntry<'a> {
 	///
 	/// Simply walks the filesystem checking all references are valid.
 	pub fn fsck(&self) -> Result<()> {
+		self.fsck_(0, &mut self.resources.fsck_budget())
+	}
+	fn fsck_(&self, depth: u32, budget: &mut usize) -> Result<()> {
 		self.name()?;
 		match self.entry()? {
-			Entry::Directory(dir) => dir.fsck(),
+			Entry::Directory(dir) => dir.fsck_(depth + 1, budget),
 			Entry::DataEntry(data) => data.fsck(),
 		}
 	}
@@ -451,6 +466,9 @@ impl<'a> fmt::Debug for DataEntry<'a> {
 }
 
 //----------------------------------------------------------------
+
+// Directories nested deeper than this are considered corrupt
+const FSCK_MAX_DEPTH: u32 = 32;
 
 static RSRC_TYPES: [Option<&str>; 25] = [
 	// 0
